@@ -47,6 +47,10 @@ func doLoad(w *seqx.World, lc loadCase, mh cid.Cid, heads []iface.IPFSLogEntry) 
 		return ipfslog.NewFromJSON(world.Ctx, w.St, world.IDs[0], &iface.JSONLog{ID: "X", Heads: hashes}, lo, &iface.FetchOptions{Length: lp, Concurrency: lc.Conc})
 	case "entry":
 		return ipfslog.NewFromEntry(world.Ctx, w.St, world.IDs[0], append([]iface.IPFSLogEntry{}, heads...), lo, &iface.FetchOptions{Length: lp, Concurrency: lc.Conc})
+	case "entry-roomy":
+		// the caller's slice has spare capacity (a sub-slice of a larger list, a reused buffer): the loader appends to it
+		src := append(make([]iface.IPFSLogEntry, 0, 64), heads...)
+		return ipfslog.NewFromEntry(world.Ctx, w.St, world.IDs[0], src, lo, &iface.FetchOptions{Length: lp, Concurrency: lc.Conc})
 	}
 	panic("loader")
 }
@@ -110,7 +114,7 @@ func loadOne(p *run.Part, prop string, cfg *seqx.Config, lc loadCase) {
 	switch lc.Loader {
 	case "entryhash":
 		supplied[heads[0].GetHash().String()] = true
-	case "entry":
+	case "entry", "entry-roomy":
 		for _, h := range heads {
 			supplied[h.GetHash().String()] = true
 		}
@@ -172,7 +176,7 @@ func loadProbe(p *run.Part, prop string, cfg *seqx.Config, seen *sync.Map, limit
 			if _, dup := seen.LoadOrStore(key, true); dup {
 				continue
 			}
-			for _, ld := range []string{"multihash", "entryhash", "json", "entry"} {
+			for _, ld := range []string{"multihash", "entryhash", "json", "entry", "entry-roomy"} {
 				for _, cc := range concs {
 					if !limited {
 						loadOne(p, prop, cfg, loadCase{Config: cfg.Name, Path: c.Path, Replica: r, Loader: ld, Conc: cc, N: -1})
@@ -202,7 +206,7 @@ func loadSearches(prop string, limited bool) func(p *run.Part, tier string) []*s
 			return &seqx.Search{Part: p, Check: "load", Cfg: cfg, Alphabet: Alphabet(3, false), Depth: d, Prefix: Prefixes[prefix], PrefixID: prefix,
 				Deadline: dl, OnState: loadProbe(p, prop, cfg, seen, limited, []int{1, 3})}
 		}
-		ss := []*seqx.Search{mk(CfgDef3, "", depth), mk(CfgHash3, "", 4), mk(CfgClk3, "", 4)}
+		ss := []*seqx.Search{mk(CfgDef3, "", depth), mk(CfgHash3, "", 4), mk(CfgClk3, "", 4), mk(CfgGap3, "", 4)}
 		em := mk(CfgDef3, "", 4)
 		em.Alphabet = WithEmpty(Alphabet(3, false))
 		ss = append(ss, em)
